@@ -166,3 +166,25 @@ def c10_name_char(w, v):
     m = tc.pseudo_token.match('a' + w)
     print('a+%r is an identifier: %s; matched as %r' % (w, ('a' + w).isidentifier(), m.group(2) if m else None))
     return ('a' + w).isidentifier() and (m is None or m.group(2) != 'a' + w)
+
+
+def t9_backtracking(pattern, flags, w):
+    """the failing match of (witness repeated n times + a character that cannot continue) grows exponentially"""
+    import re
+    import time
+    p = re.compile(pattern, flags)
+    prev = None
+    n = 4
+    while n <= 60:
+        s = w * n + '\x00'
+        t0 = time.perf_counter()
+        p.match(s)
+        t = time.perf_counter() - t0
+        if t > 0.2:
+            grew = prev is not None and t > 3 * prev
+            print('failing match of %r x %d takes %.3fs (x %d: %.4fs): exponential=%s' % (w, n, t, n - 2, prev or 0, grew))
+            return grew
+        prev = t
+        n += 2
+    print('no blow-up up to %d repetitions of %r' % (n, w))
+    return False
